@@ -3,6 +3,13 @@
 # the evidence next to what the engine measured.
 
 PROPS = {
+    "C16": {
+        "groups": [
+            {"pkg": "client", "tags": "verif,test", "harness": "^verifH_C16_", "unwind": 5},
+        ],
+        "bounds": {"rows": "0..2 (quick) / 0..3 (thorough), each with 1..3 fields", "timestamps": "< genesis + 2^32 s", "value rule": "finite scaled values within +-9.2e18"},
+        "outside": ["encoding/csv tokenisation (quotes, CRLF) and strconv text semantics (contracts)", "float->uint64 for NaN/Inf/overflow (absence of crashes only)", "arm64 float conversion (saturating)"],
+    },
     "C09": {
         "groups": [
             {"pkg": "client", "tags": "verif,test", "harness": "^verifH_C09_"},
